@@ -181,6 +181,41 @@ def run(prog, ctx):
         res.violate("C07.P", "C07.P|stream_weight", "update_with_count does not add the count to stream_weight", upd.id)
     res.rule("C07.P", n_p, 3, "purge/insert sites")
 
+    # ---------------- C07.D deletion by back-shifting: an entry moved into the hole keeps its probe distance consistent —
+    # the state written is `states[probe] - d` for the same d the guard `states[probe] > d` tested (Knuth 6.4 R)
+    def strip(e):
+        while isinstance(e, tuple) and e and e[0] == "cast":
+            e = e[1]
+        return e
+    n_dd = 0
+    for f in [x for x in prog.fns.values() if not x.promoted and x.owner and x.owner.startswith("frequencies::reverse_purge_item_hash_map::ReversePurgeItemHashMap")]:
+        sf = Sym(prog, f, ifconv=False)
+        for (b, base, ie, val, span, _s) in C.buffer_stores(prog, f, "states"):
+            v = strip(val)
+            if not (C.is_bin(v, "Sub") and sym.contains(v[2], lambda t: (t[0] == "index" and "states" in show(t[1])) or (t[0] == "call" and t[1].rsplit("::", 1)[-1] == "index" and "states" in show(t)))):
+                continue
+            n_dd += 1
+            res.obligations += 1
+            moved, dist = strip(v[2]), strip(v[3])
+            guards = []
+            for x in sf.cmp_facts_at(b):
+                if len(x) != 3 or x[0] not in ("Gt", "Lt", "Ge", "Le"):
+                    continue
+                a, c, op = strip(C.resolve_var(prog, f, x[1], sf)), strip(C.resolve_var(prog, f, x[2], sf)), x[0]
+                if op in ("Lt", "Le"):
+                    a, c, op = c, a, {"Lt": "Gt", "Le": "Ge"}[op]
+                if a == moved:
+                    guards.append((op, c))
+            if any(op == "Gt" and c == dist for op, c in guards):
+                res.discharged += 1
+                res.sample({"rule": "C07.D", "fn": f.id, "store": show(val), "guard": "%s > %s" % (show(moved), show(dist))})
+            elif guards:
+                res.violate("C07.D", "C07.D|%s" % f.id, "%s writes state %s under the guard %s: the distance subtracted is not the distance tested, so a moved entry can end up before its home slot and become unreachable" % (
+                    f.id, show(val), " / ".join("%s %s %s" % (show(moved), ">" if op == "Gt" else ">=", show(c)) for op, c in guards)), f.id, span)
+            else:
+                res.undecided += 1
+    res.rule("C07.D", n_dd, 1, "back-shift state updates in the reverse-purge map")
+
     # ---------------- C07.S sizing formulas
     n_s = 0
     ctor = None
